@@ -41,6 +41,33 @@ class HtHooks(AwsHooks):
             return
         AwsHooks.fresh_field(self, num, st, key, rec, f, atom)
 
+    def entry(self, num, st):
+        # s_remove_entry's own AWS_PRECONDITION: `entry` points at one of the table's slots
+        # (entry >= &state->slots[0] && entry < &state->slots[state->size]); assumed here, it is what the callers pass
+        # (the slot s_find_entry found / &state->slots[iter->slot])
+        if num.fn.name == "s_remove_entry" and len(num.fn.params) == 2:
+            fn = num.fn
+            sl = None
+            for b in fn.blocks.values():
+                for el in b.elems:
+                    for n in fn.walk(el, follow_refs=True):
+                        if n["k"] == "member" and n["f"] == "slots" and n.get("rec") == ST and sl is None:
+                            sl = n
+            if sl is not None:
+                base = num.val({"k": "decay", "id": -1, "t": -1, "a": [sl]}, st) if False else None
+                key = num.key(sl, st)
+                if key:
+                    pe = fn.params[1]
+                    esz = (num.prog.records.get("hash_table_entry") or {}).get("size") or 24
+                    i0 = Poly.atom(num.fresh(st, "slotidx", None, (0, 2 ** 58)))
+                    size = num.field(st, key[:-len("slots")] + "size" if key.endswith("slots") else key, ST, "size")
+                    addr = num.read(sl, st)
+                    if addr is not None:
+                        st.add(i0 - size + 1)
+                        st.env["v:" + pe["n"]] = addr + i0 * esz
+        if hasattr(AwsHooks, "entry"):
+            AwsHooks.entry(self, num, st)
+
     def flex_extent(self, num, st, key, rec, f, t):
         if rec == ST and f == "slots":
             size = num.field(st, key, rec, "size")
@@ -94,7 +121,7 @@ def analyse(ctx, replace=None, only=None):
     for f in fns.values():
         R.fn(f)
     destruct(R, fns)
-    count_load(R, fns)
+    count_load(R, fns, P)
     nonzero_hash(R, P, fns)
     stale(R, fns)
     slots(R, P, fns)
@@ -181,7 +208,7 @@ def destruct(R, fns):
             R.check(not [e for e in g.indirect_calls() if RU.indirect_via(g, e.node) and RU.indirect_via(g, e.node)[1].startswith("destroy_")], "DESTRUCT", "no-destructor:%s" % nm, "%s()" % nm, "no destructor call")
 
 
-def count_load(R, fns):
+def count_load(R, fns, P=None):
     f = fns["aws_hash_table_create"]
     dom = dominators(f)
     inc = [e for e in f.field_accesses(rec=ST, field="entry_count", modes=("rw", "w"))]
@@ -202,7 +229,23 @@ def count_load(R, fns):
         for ce in f.calls("aws_add_size_checked"):
             if argstr(f, ce.node, 0).endswith("entry_count") and f.is_const(RU.arg(f, ce.node, 1)) == 1:
                 incv = argstr(f, ce.node, 2)
-        R.check(incv is not None and ((incv, ">", "state->max_load") in gx or ("state->max_load", "<", incv) in gx), "LOAD", "create:expand-when-over-max-load", where(f, ex[0]), "table expanded when count+1 > max_load", "the load check guarding expansion is %s" % gx)
+        okload = incv is not None and ((incv, ">", "state->max_load") in gx or ("state->max_load", "<", incv) in gx)
+        if not okload:
+            # the same test written on other operands (`entry_count >= max_load`): decided on the values - at the expansion
+            # the count plus the new entry exceeds max_load, and the expansion's only own guard compares with max_load
+            numl = Num(f, P, HtHooks(), max_paths=6000)
+            try:
+                stl = numl.states_at({ex[0].node["id"]}).get(ex[0].node["id"], [])
+            except Limit:
+                stl = []
+            okv = bool(stl)
+            for st_ in stl:
+                ec = [v for k, v in st_.env.items() if k.endswith("->entry_count") and not k.startswith("&")]
+                ml = [v for k, v in st_.env.items() if k.endswith("->max_load") and not k.startswith("&")]
+                okv = okv and len(ec) == 1 and len(ml) == 1 and entails(st_, ml[0] - ec[0])
+            own = [x for x in gx if "max_load" in (x[0] or "") or "max_load" in (x[2] or "")]
+            okload = okv and len(own) == 1 and own[0][1] in (">", ">=", "<", "<=")
+        R.check(okload, "LOAD", "create:expand-when-over-max-load", where(f, ex[0]), "table expanded when count+1 > max_load", "the load check guarding expansion is %s" % gx)
         R.check(inc[0] in RU.reach_from(f, ex[0]) and ex[0] not in RU.reach_from(f, inc[0]), "LOAD", "create:check-before-admit", where(f, inc[0]), "the load check precedes the admission")
     f = fns["s_remove_entry"]
     dec = [e for e in f.field_accesses(rec=ST, field="entry_count", modes=("rw", "w"))]
